@@ -48,7 +48,8 @@ ASSUMPTIONS = [
     'differential evolution on a declared sub-grid',
     '"returns two liquid phases" is read as: both phases carry more than 1e-8 of the feed (mol); otherwise the equal-activity and '
     'top-chemical clauses say nothing',
-    'history alphabets use temperatures >= 15 K apart and compositions >= 0.02 apart in mole fraction, or exactly equal; changes '
+    'history alphabets use temperatures >= 15 K apart and mole fractions that are >= 0.02 apart or exactly equal (families FIX/FIXO hold one '
+    'fraction bit-equal while the other two trade); changes '
     'below the cache tolerances (1e-3 K, 1e-5) are not explored',
     'when no top chemical is named the labels l/L may be exchanged between two results that are compared (DESIGN 3b)',
     'documented solver rejections (NoEquilibrium, RuntimeError of a non-converged solve, "no solute available") and numerical failures '
@@ -356,25 +357,30 @@ class LLEGrid(System):
             hist = [tuple(float(v) for v in c) for f in HIST_FAMILIES.values() for c in f]
             hist = [c for c in dict.fromkeys(hist) if c not in comps]
             if self.clauses == 'activity': return [(self.method, c, 1.0) for c in comps + hist]
+            if tier == 'quick':
+                # the scaled feeds are solved at two temperatures only ('q' marks the reduced action set; thorough: all five)
+                return ([(self.method, c, 1.0) for c in comps + hist] +
+                        [(self.method, c, sc, 'q') for c in comps for sc in SCALES if sc != 1.0])
             return [(self.method, c, sc) for c in comps for sc in SCALES] + [(self.method, c, 1.0) for c in hist]
         pairs = lle_subgrid(tier, seed)
         scales = SCALES if tier != 'quick' else (1.0, 1e3)
         return [(self.method, c, sc) for c in pairs for sc in scales]
 
     def build(self, config):
-        method, comp, scale = config
+        method, comp, scale = config[:3]
         st = LSt()
         st.s = _new_lle_stream(method, comp, scale)
         st.config = config; st.hist = []; st.info = {}
         return st
 
     def actions(self, st):
-        method, comp, scale = st.config
+        method, comp, scale = st.config[:3]
         present = [ID for ID, v in zip(LLE_IDS, comp) if v]
         absent = [ID for ID, v in zip(LLE_IDS, comp) if not v]
         tops = [None] + present + absent[:1]
         if method == 'pe':
             Ts = tuple(sorted(set(T_GRID + HIST_T)))
+            if len(st.config) > 3: Ts = (300.0, 340.0)
             if self.clauses == 'activity': tops = [None]
         else:
             Ts = (300.0, 355.0) if scale == 1.0 else (300.0,)
@@ -383,7 +389,7 @@ class LLEGrid(System):
         return [(T, top) for T in Ts for top in tops]
 
     def step(self, st, a):
-        method, comp, scale = st.config
+        method, comp, scale = st.config[:3]
         T, top = a
         ctx = dict(method=method, first_call=True)
         l, L, solved = _call_lle(st.s, T, top, True, ctx)
@@ -427,7 +433,13 @@ HIST_FAMILIES = {
     'SET': ((10.0, 0, 5.0, 0, 0, 0), (10.0, 0, 5.0, 0, 0, 2.0), (10.0, 5.0, 0, 0, 0, 2.0)),
     'WBH': ((10.0, 2.0, 0, 0, 5.0, 1.0), (4.0, 5.0, 0, 0, 2.0, 2.0), (7.0, 3.0, 0, 0, 8.0, 0.5)),
     'WA': ((10.0, 0, 0, 10.0, 0, 0), (4.0, 0, 0, 12.0, 0, 0), (15.0, 0, 0, 5.0, 0, 0)),
+    # ternaries that differ in only SOME mole fractions (all totals are 16, so the shared fractions are bit-equal):
+    # 0 -> 1 keeps the Ethanol fraction (1/16) while Water and the alcohol trade, 0 -> 2 keeps the Water fraction (10/16),
+    # 1 -> 2 moves every fraction.  A reuse test that looks at "all fractions moved" / "any fraction equal" is exposed here.
+    'FIX': ((10.0, 5.0, 0, 0, 0, 1.0), (8.0, 7.0, 0, 0, 0, 1.0), (10.0, 4.0, 0, 0, 0, 2.0)),
+    'FIXO': ((10.0, 0, 5.0, 0, 0, 1.0), (8.0, 0, 7.0, 0, 0, 1.0), (10.0, 0, 4.0, 0, 0, 2.0)),
 }
+FAMILY_TOP = {'WOE': 'Octanol', 'SET': 'Octanol', 'WBH': '1-Butanol', 'WA': 'EthylAcetate', 'FIX': '1-Butanol', 'FIXO': 'Octanol'}
 HIST_T = (320.0, 300.0, 340.0)
 
 
@@ -467,7 +479,7 @@ class LLEHist(System):
         out = []
         for f in fams:
             for top in (self.tops_q if tier == 'quick' else self.tops):
-                if top is not None and not all(c[LLE_IDS.index(top)] > 0 for c in HIST_FAMILIES[f]): top = '1-Butanol' if f == 'WBH' else ('EthylAcetate' if f == 'WA' else top)
+                if top is not None: top = FAMILY_TOP[f]
                 out.append((self.method, f, top, tuple(flags), self.nC if tier == 'quick' else self.nC_t,
                             self.nT if tier == 'quick' else self.nT_t))
         return out
@@ -839,7 +851,7 @@ class SLEFeed(SLEBase):
     down between calls while the set of chemicals present may stay the same."""
     name = 'c15.sle.feed'
     def depth(self, tier): return 2
-    def _sets(self, tier): return ((), (0,), (0, 1)) if tier == 'quick' else ((), (0,), (1,), (0, 1, 2))
+    def _sets(self, tier): return ((), (0,), (0, 1)) if tier == 'quick' else ((), (0,), (1,), (0, 1), (0, 1, 2))
     def _pats(self, tier): return ('a',) if tier == 'quick' else ('a', 'b')
     def _amts(self, tier): return (30.0, 5.0) if tier == 'quick' else (30.0, 5.0, 60.0)
     def _given(self, tier): return (0.2,) if tier == 'quick' else (0.05, 0.6)
@@ -890,17 +902,20 @@ SYSTEMS = [
     LLEGrid('c15.lle.grid.de', 'de'),
     LLEGrid('c15.lle.grid.shgo', 'shgo'),
     # A: 3 compositions x 3 T, reuse allowed in the history; quick = depth-3 slice of one configuration
-    LLEHist('c15.lle.hist.pe', 'pe', ('WOE',), ('WOE', 'SET'), 3, 4, flags_q=(True,), flags_t=(True,), mode='reuse', tops_q=('Octanol',)),
+    LLEHist('c15.lle.hist.pe', 'pe', ('WOE',), ('WOE', 'SET', 'WBH', 'FIX'), 3, 4, flags_q=(True,), flags_t=(True,), mode='reuse', tops_q=('Octanol',)),
     # B: 1-4 earlier calls + probe (the property's longest history) over 2 compositions x 3 T on one family
-    LLEHist('c15.lle.hist5.pe', 'pe', ('WOE',), ('WOE',), 4, 5, nC=2, flags_q=(True,), flags_t=(True,), mode='reuse', tops_q=('Octanol',)),
+    LLEHist('c15.lle.hist5.pe', 'pe', ('WOE',), ('WOE', 'FIX'), 4, 5, nC=2, flags_q=(True,), flags_t=(True,), mode='reuse', tops_q=('Octanol',)),
     # C: histories that mix calls with and without reuse, and families whose chemical set changes
-    LLEHist('c15.lle.hist.uc.pe', 'pe', ('SET',), ('WOE', 'SET', 'WBH', 'WA'), 3, 3, flags_q=(True, False), flags_t=(True, False), mode='reuse', tops_q=('Octanol',)),
-    LLEHist('c15.lle.fresh.pe', 'pe', ('WOE', 'SET'), ('WOE', 'SET', 'WBH', 'WA'), 3, 3, flags_q=(True,), mode='fresh'),
-    LLEHist('c15.lle.hist.de', 'de', ('WA',), ('WOE', 'WA'), 2, 2, nT=2, nC=2, nT_t=3, nC_t=3, flags_q=(True,), flags_t=(True,)),
-    # histories that contain `update=False` calls (optimiser method: the default method cannot show a reuse defect, see report)
-    LLEHist('c15.lle.hist.nu.de', 'de', ('WA',), ('WA', 'WOE'), 3, 3, nT=2, nC=1, flags_q=(True, 'nu'), flags_t=(True, 'nu'),
+    LLEHist('c15.lle.hist.uc.pe', 'pe', ('SET',), ('WOE', 'SET', 'WBH', 'WA', 'FIX', 'FIXO'), 3, 3, nT=2, nT_t=3, flags_q=(True, False), flags_t=(True, False), mode='reuse', tops_q=('Octanol',)),
+    LLEHist('c15.lle.fresh.pe', 'pe', ('WOE', 'SET'), ('WOE', 'SET', 'WBH', 'WA', 'FIX', 'FIXO'), 3, 3, flags_q=(True,), mode='fresh'),
+    # optimiser methods (they alone can show a reuse defect while the default method never updates K): quick uses the cheap binary WA
+    # and the first two compositions of FIX (same Ethanol fraction, Water/1-Butanol trade)
+    LLEHist('c15.lle.hist.de', 'de', ('WA', 'FIX'), ('WOE', 'WA', 'FIX', 'FIXO', 'SET'), 2, 2, nT=2, nC=2, nT_t=3, nC_t=3, flags_q=(True,), flags_t=(True,),
+            tops_q=(None,)),
+    # histories that contain `update=False` calls
+    LLEHist('c15.lle.hist.nu.de', 'de', ('WA',), ('WA', 'WOE'), 3, 4, nT=2, nC=1, flags_q=(True, 'nu'), flags_t=(True, 'nu'),
             tops=(None, 'Octanol'), tops_q=(None,)),
-    LLEHist('c15.lle.hist.shgo', 'shgo', ('WOE',), ('WOE',), 2, 2, nT=2, nC=1, nT_t=2, nC_t=2, flags_q=(True,), flags_t=(True,), tops=(None,)),
+    LLEHist('c15.lle.hist.shgo', 'shgo', ('WOE',), ('WOE', 'FIX'), 2, 2, nT=2, nC=1, nT_t=2, nC_t=2, flags_q=(True,), flags_t=(True,), tops=(None,)),
     SLEGrid(),
     SLEHist(),
     SLEFeed(),
